@@ -219,6 +219,8 @@ pub struct ExploreResult {
     pub machinery_error: Option<String>,
     pub distinct_outcomes: usize,
     pub budget_hit: bool,
+    /// the number of scheduling points per thread differed between executions
+    pub points_vary: bool,
 }
 
 /// Iterative context bounding. `make` builds fresh thread bodies for one execution; `check` judges the execution
@@ -230,7 +232,7 @@ pub fn explore(
     make: &dyn Fn() -> Vec<Box<dyn FnOnce() + Send + 'static>>,
     check: &dyn Fn(&Execution) -> Result<u64, String>,
 ) -> ExploreResult {
-    let mut res = ExploreResult { executions: 0, completed_bound: None, executions_per_bound: Vec::new(), points_total: 0, per_thread_points: Vec::new(), failure: None, machinery_error: None, distinct_outcomes: 0, budget_hit: false };
+    let mut res = ExploreResult { executions: 0, completed_bound: None, executions_per_bound: Vec::new(), points_total: 0, per_thread_points: Vec::new(), failure: None, machinery_error: None, distinct_outcomes: 0, budget_hit: false, points_vary: false };
     let mut outcomes = std::collections::BTreeSet::new();
     for bound in 0..=max_bound {
         let before = res.executions;
@@ -252,9 +254,9 @@ pub fn explore(
                 res.per_thread_points = x.per_thread_points.clone();
                 res.points_total = x.points.len();
             } else if res.per_thread_points != x.per_thread_points {
-                // a different number of scheduling points means the code took a data- or schedule-dependent path
-                res.failure = Some((x.choices(), format!("scheduling points per thread changed from {:?} to {:?}: the execution is not schedule-independent", res.per_thread_points, x.per_thread_points)));
-                return res;
+                // who executes how many points depends on the schedule (e.g. lazily initialised state): not an error
+                // in itself -- the oracle decides -- but worth reporting
+                res.points_vary = true;
             }
             match check(&x) {
                 Ok(fp) => {
